@@ -29,10 +29,17 @@ MANIFEST = dict(
          'refinement insensitivity, stationarity of a third pass -- is proved BOUNDED: every sequence over {-3..3} of length <= 6 '
          '(vm_compute sweep + forallb_forall); the unbounded restricted statement is kept as a Definition and is not proved. '
          'The model is tied to the code by correspondence on (loads_min, loads_max, is_closed_hysteresis, run_index) of every row of two- and '
-         'three-pass runs; the property relation itself is evaluated on the implementation on every run.',
+         'three-pass runs; the property relation itself is evaluated on the implementation on every run. Float loads: the code compares with '
+         'an absolute tolerance of 1e-12; tolerant_compare_is_level_compare / level_abs_extent (unbounded, over R) show that such comparisons of '
+         'loads, |loads| and extents lying within a small error of a grid c*level decide like the integer comparison of the levels, so the integer '
+         'model also speaks about float inputs whose extreme loads / extents tie only up to rounding; these are generated on every run '
+         '(levels scaled by c, each occurrence moved by a few ulps, error budget checked in exact rational arithmetic) and the detector must '
+         'record what the model records for the levels.',
     note=common.TB_NOTE + 'all C04 theorems are closed under the global context (no axioms). The model is hand-written: the correspondence harness, '
          'the injected integer-valued law object and the Python search oracle (tied to HCM/Periodic.v by vm_compute each run) are trusted; '
-         'loads are integers in the model (exact on doubles; the 1e-12 tolerances of the code are irrelevant on an integer grid); '
+         'loads are integers in the model (exact on doubles); the 1e-12 tolerances of the code are exercised by float inputs with ulp-level '
+         'near-ties whose levels are fed to the model (bridge: tolerant_compare_is_level_compare; that every comparison of the code is of this '
+         'form, and the float rounding bound of the budget, are argued in harness/hcm.py, not proved); '
          'turning points come from Rainflow/Model.v new_turns (tied by C01).',
     technique='Coq proof (invariants by induction; refutation + bounded restricted equivalence by vm_compute) over hand-written Gallina model '
               '+ vm_compute correspondence + property relation on the implementation',
@@ -40,6 +47,15 @@ MANIFEST = dict(
 
 CORPUS = [[-2, 0, -1], [-1, 2, 2], [-16, -6, -10, -15, -1], [1, -3, 2, -1], [0, -2], [1, 0, 1], [0, 0, 1, 0], [2, 2, -1, -1, 2],
           [1, 2, 3, 2, 1, -4, 0, 4, -2, 1], [5, -5, 4, -4, 3, -3, 2, -2, 1, -1], [1, -1, 2, -2, 3, -3, 4, -4], [3, 1, 2, 1, 2, 1, 3, -3]]
+
+# hand-picked float inputs whose largest |load| / extents tie only up to rounding: (levels, loads, scale)
+NT_CORPUS = [
+    ([-3, 1, 3, -3, 3], [-0.3, 0.1, 0.1 + 0.2, -0.3, 0.3], 0.1),
+    ([3, -1, 3, -3, 3], [0.3, -0.1, 0.1 + 0.2, -0.3, 0.1 + 0.2], 0.1),
+    ([3, -3, 1, -1, 3, -3], [0.1 + 0.2, -0.3, 0.1, -0.1, 0.3, -(0.1 + 0.2)], 0.1),
+    ([-6, 2, 6, -2, -6, 6], [-0.6, 0.2, 0.1 * 6, -0.2, -0.1 * 6, 0.6], 0.1),
+    ([2, -1, 1, -2, 1, -1], [0.2, -0.1, 0.1, -0.2, 0.30000000000000004 - 0.2, -0.1], 0.1),
+]
 
 
 def classify(s):
@@ -94,11 +110,15 @@ def run(res):
     res.trusted += ['hand-written Gallina model coq/theories/HCM/{Model,Load,Periodic}.v, tied by the correspondence check (this harness)',
                     'injected integer-valued law object harness/hcm.py:IntLaw (only loads, flags, run_index are compared here)',
                     'Python search oracle harness/hcm.py:steady_cycles/z_class/p_class, tied to HCM/Periodic.v / HCM/Load.v by vm_compute on every case']
-    res.assumptions += ['loads are integers (exact on doubles; the code\'s 1e-12 tolerances cannot matter on an integer grid)',
+    res.assumptions += ['loads are integers, or floats within 4d + rounding <= 9e-13 of a grid c*level with c >= 1e-3, |load| <= 300 (near-ties far below the '
+                        'code\'s 1e-12 tolerance, grid far above it); loads whose distinct values differ by about 1e-12 are not covered',
                         'the sequence has at least two distinct values (the property\'s quantifier)']
     res.cov['rule'] = ('exhaustive: every sequence over a small symmetric alphabet up to a length bound; random: length 2..40, alphabets {-k..k} k in 2..40, '
                        'plateaus / intermediate points / repeated extremes / nested envelopes, each also rewritten into a forced junction configuration '
                        '(last between 0 and first, trailing / leading plateau, last passing an older reversal, zero ends, last = first); '
+                       'near-tie float inputs: level sequences from the same pool (half with the largest |level| attained at least twice) scaled by c in '
+                       '{1e-3..7.3} and perturbed by -2..2 ulps per run of equal levels (modes random / growing / shrinking / late-extreme), counted '
+                       'non-trivial when in the class and at least one level occurs with two different float values; '
                        'non-trivial = sequence in the junction class z and p whose second pass records at least one hysteresis '
                        '(counted distinct by sequence); sequences outside the class are compared model-vs-implementation and feed the known finding')
     common.standard_proof_stage(res, 'C04')
@@ -220,6 +240,13 @@ def run(res):
     res.cov['three_pass_runs'] = len(t3)
 
     res.cov.setdefault('timing_s', []).append(round(time.time() - res.t0, 1))
+    # ---- D4: float loads whose extreme values / extents tie only up to rounding (the code's 1e-12 tolerances decide).
+    # Level sequences of every junction class are scaled by c and perturbed by a few ulps per occurrence (hcm.perturb); the detector
+    # must record what the integer model records for the levels (theorem tolerant_compare_is_level_compare), and the property's
+    # relation is evaluated on what it recorded for the float input.
+    bad_nt = near_tie_stage(res, seqs, outs, quick)
+
+    res.cov.setdefault('timing_s', []).append(round(time.time() - res.t0, 1))
     # ---- search seeded from disagreeing cases (only when the tie broke): neighbours of the disagreeing sequences
     if badset or bad3:
         extra = []
@@ -251,6 +278,138 @@ def run(res):
     res.replay_known(lambda e: hcm.c04_relation(e['witness']['sequence'], hcm.impl_run(e['witness']['sequence'])[0]) is not None)
 
 
+def near_tie_cases(rng, seqs, n):
+    """(levels, floats, scale, mode): level sequences from the generated pool -- half of them with the largest |level| attained at
+    least twice (near-ties of the maximum), the rest arbitrary (near-ties of extents / inner reversals) -- scaled and perturbed."""
+    multi = [s for s in seqs if len(s) <= 40 and sum(1 for x in s if abs(x) == max(abs(y) for y in s)) >= 2]
+    rest = [s for s in seqs if len(s) <= 40]
+    rng.shuffle(multi)
+    rng.shuffle(rest)
+    pool = multi[:n // 2] + rest[:n - min(len(multi), n // 2)]
+    cases, skipped, seen = [], 0, set()
+    for s in pool:
+        for _ in range(2):
+            c = rng.choice(hcm.NT_SCALES)
+            if max(abs(x) for x in s) * c > 300:
+                c = 0.1
+            f = hcm.perturb(rng, s, c, rng.choice(hcm.NT_MODES))
+            if f is None:
+                skipped += 1
+                continue
+            if tuple(f) in seen:
+                continue
+            seen.add(tuple(f))
+            cases.append((s, f, c))
+            if rng.random() < 0.6:
+                break
+    return cases, skipped
+
+
+def near_tie_stage(res, seqs, outs, quick):
+    rng = res.rng
+    cases = [(s, [float(x) for x in f], c) for s, f, c in NT_CORPUS if hcm.nt_valid(s, f) and hcm.nt_budget(s, f, c) is not None]
+    gen, skipped = near_tie_cases(rng, seqs, 500 if quick else (5000 if common.NCPU >= 8 else 1800))
+    cases += gen
+    o_nt = hcm.pmap(hcm._w_scaled, [(f, c) for _, f, c in cases])
+    terms, owner, cont_bad, n_near, distinct = [], [], [], 0, set()
+    for i, ((s, f, c), o) in enumerate(zip(cases, o_nt)):
+        if len(set(f)) > len(set(s)):
+            n_near += 1
+        if hcm.exact_steady_levels(f, c) != hcm.steady_cycles(s):
+            cont_bad.append((s, f, c))
+        if o[0] != 'ok':
+            res.oblige('implementation runs on float loads %s' % f, False, o[1])
+            res.violation('detector raises on a valid load sequence', sequence=f, levels=s, scale=c, error=o[1])
+            continue
+        try:
+            terms.append(hcm.c04_term(s, hcm.snap_rows(o[1][0], c), None))
+        except ValueError:
+            terms.append('false')
+        owner.append(i)
+    res.oblige('search oracle on float loads: the steady-state cycles of the perturbed sequence (exact rational arithmetic) are those of its levels (%d sequences)' % len(cases),
+               not cont_bad, cont_bad[:3])
+    bad, log = common.coq_compare('C04nt', hcm.REQ, terms)
+    badset = {owner[j] for j in bad}
+    res.oblige('correspondence: load model on the levels = implementation on float loads with rounding-level near-ties (levels of loads_min, loads_max; is_closed_hysteresis, run_index of every row) on %d sequences' % len(terms),
+               not bad, 'disagreeing inputs: %s\n%s' % ([cases[owner[j]][1:] for j in bad[:4]], log[-1200:]))
+    n_viol = 0
+    order = sorted(owner, key=lambda i: (not hcm.in_class(cases[i][0]), len(cases[i][0])))
+    for i in order:
+        s, f, c = cases[i]
+        rows = o_nt[i][1][0]
+        why = hcm.c04_relation_nt(s, f, c, rows)
+        if hcm.in_class(s) and len(set(f)) > len(set(s)):
+            distinct.add(tuple(f))
+        if why:
+            agrees = i not in badset
+            if hcm.in_class(s) and n_viol < 3:
+                s2, f2 = shrink_nt(s, f, c)
+                if s2 != s:
+                    s, f, agrees = s2, f2, False
+                    rows = hcm.impl_run_scaled(f, c)[0]
+                    why = hcm.c04_relation_nt(s, f, c, rows) or why
+            new = res.violation(WHAT, sequence=f, levels=s, scale=c, detail=why, z=hcm.z_class(s), p=hcm.p_class(s), model_agrees=agrees,
+                                observed_pass2=[(r['loads_min'], r['loads_max'], r['is_closed_hysteresis']) for r in rows if r['run_index'] == 2],
+                                expected_pass2_levels=hcm.steady_cycles(s))
+            if new:
+                n_viol += 1
+    n_extra = 0
+    if badset and n_viol == 0:
+        # the tie broke on float inputs but none of them violates the property: search the neighbourhood of the disagreeing inputs
+        # (sub-sequences forced into the class, other scales / perturbation modes)
+        extra = []
+        for i in list(badset)[:40]:
+            s = cases[i][0]
+            for _ in range(8):
+                t = hcm.make_in_class(rng, [x for x in s if rng.random() < 0.8] or s)
+                if t is None or len(set(t)) < 2:
+                    continue
+                c = rng.choice([cases[i][2], rng.choice(hcm.NT_SCALES)])
+                f = hcm.perturb(rng, t, c if max(abs(x) for x in t) * c <= 300 else 0.1, rng.choice(hcm.NT_MODES))
+                if f is not None:
+                    extra.append((t, f, c if max(abs(x) for x in t) * c <= 300 else 0.1))
+        n_extra = len(extra)
+        for (s, f, c), o in zip(extra, hcm.pmap(hcm._w_scaled, [(f, c) for _, f, c in extra])):
+            if o[0] != 'ok' or n_viol >= 3:
+                continue
+            why = hcm.c04_relation_nt(s, f, c, o[1][0])
+            if why:
+                s, f = shrink_nt(s, f, c)
+                rows = hcm.impl_run_scaled(f, c)[0]
+                if res.violation(WHAT, sequence=f, levels=s, scale=c, detail=hcm.c04_relation_nt(s, f, c, rows) or why, z=hcm.z_class(s), p=hcm.p_class(s),
+                                 model_agrees=False, observed_pass2=[(r['loads_min'], r['loads_max'], r['is_closed_hysteresis']) for r in rows if r['run_index'] == 2],
+                                 expected_pass2_levels=hcm.steady_cycles(s)):
+                    n_viol += 1
+    res.add_cases(len(cases) + n_extra, nontrivial=len(distinct))
+    res.cov['near_tie_float_inputs'] = {'cases': len(cases), 'with_rounding_level_ties': n_near, 'in_class_distinct': len(distinct),
+                                       'scale_budget_skips': skipped, 'correspondence_disagreements': len(bad)}
+    for s, f, c in cases[len(NT_CORPUS):len(NT_CORPUS) + 2]:
+        res.sample({'levels': s, 'float_loads': f, 'scale': c})
+    return badset
+
+
+def shrink_nt(s, f, c):
+    """Greedy minimisation of an in-class failing float input: drop samples (levels and loads together) while the rest stays an
+    admissible perturbation, in the class, and fails."""
+    def fails(t, g):
+        if len(set(t)) < 2 or not hcm.in_class(t) or not hcm.nt_valid(t, g) or hcm.nt_budget(t, g, c) is None:
+            return False
+        try:
+            return hcm.c04_relation_nt(t, g, c, hcm.impl_run_scaled(g, c)[0]) is not None
+        except Exception:
+            return False
+    cs, cf = list(s), list(f)
+    changed = True
+    while changed and len(cs) > 2:
+        changed = False
+        for i in range(len(cs)):
+            t, g = cs[:i] + cs[i + 1:], cf[:i] + cf[i + 1:]
+            if fails(t, g):
+                cs, cf, changed = t, g, True
+                break
+    return cs, cf
+
+
 def shrink(s):
     """Greedy minimisation of an in-class failing sequence: drop samples / halve values while it stays in the class and fails."""
     def fails(t):
@@ -275,7 +434,24 @@ def shrink(s):
 def replay(res, rp):
     register_classes(res)
     v = rp.get('violation', {})
-    if 'sequence' in v:
+    if 'sequence' in v and 'scale' in v:          # float loads with rounding-level near-ties (stage D4)
+        f, s, c = [float(x) for x in v['sequence']], [int(x) for x in v['levels']], float(v['scale'])
+        try:
+            rows = hcm.impl_run_scaled(f, c)[0]
+            why = hcm.c04_relation_nt(s, f, c, rows)
+            print('replay: pass-2 rows', [(r['loads_min'], r['loads_max'], r['is_closed_hysteresis']) for r in rows if r['run_index'] == 2],
+                  'steady cycles (levels, scale %r)' % c, hcm.steady_cycles(s))
+        except Exception as e:
+            why = 'detector raises: %r' % e
+        print('replay:', f, '->', why)
+        new = True
+        if why:
+            new = res.violation(v.get('what', WHAT), sequence=f, levels=s, scale=c, detail=why, z=hcm.z_class(s), p=hcm.p_class(s), model_agrees=v.get('model_agrees'))
+            if not new:
+                res.known.append('replayed input reproduces a known finding (%s)' % why)
+        res.add_cases(1, 0)
+        res.oblige('replayed input satisfies the property', not why or not new)
+    elif 'sequence' in v:
         s = [int(x) for x in v['sequence']]
         if 'refined' in v:
             t = [int(x) for x in v['refined']]
